@@ -592,7 +592,8 @@ func (a *Act) doReturn(st *State, vals []Val, pos token.Pos, ri *ssa.Return) {
 			vc.oblige(name, "post", props, c.Line, st.guard, "false", "contract error: "+err.Error()+" in: "+c.Text)
 			continue
 		}
-		vc.obligeNoAssume(name, "post", props, a.pos(pos)+" ["+c.Line+"]", st.guard, v, "ensures "+c.Text)
+		// postconditions are checked in order; each one may use the earlier ones (a failing one is reported anyway)
+		vc.oblige(name, "post", props, a.pos(pos)+" ["+c.Line+"]", st.guard, v, "ensures "+c.Text)
 		if n := len(vc.obls); n > 0 && vc.quiet == 0 {
 			vc.obls[n-1].Clause = c
 		}
